@@ -163,6 +163,8 @@ OTHER_MUTATIONS = [
      'IF x[1] = k THEN Absent ELSE s.data[x]]]', 's.data[x]]]', 'DataOnlyInDirs', None),
     ('the cycle search only looks for tasks that depend on themselves directly', 'CycleCheck.tla', 'CycleCheck_gen.cfg',
      'IF d = task \\/ d \\in parents THEN', 'IF d = task THEN', 'I_Verdict', None),
+    ('a "-key" sort order is not reversed', 'TopList.tla', 'TopList_gen.cfg',
+     'IF Rev(c.sort) THEN Reverse(srt) ELSE srt', 'srt', 'I_Sorted', None),
     ('the key directory is not required to be a child of the storage directory', 'LocalPaths.tla', 'LocalPaths_quick.cfg',
      "KeyOk(kts) == ~KeyErr(kts) /\\ Parent(KeyPath(kts)) = S", "KeyOk(kts) == ~KeyErr(kts)", 'I_NothingOutside', None),
     ('the filename is not resolved before the parent check (symlinks followed afterwards)', 'LocalPaths.tla', 'LocalPaths_quick.cfg',
